@@ -13,6 +13,8 @@
 #include <tins/vxlan.h>
 #include <tins/rtp.h>
 #include <tins/pppoe.h>
+#include <tins/ppi.h>
+#include <tins/pktap.h>
 using namespace Tins;
 
 enum Entry { E_ETH, E_DOT3, E_SLL, E_LOOP, E_RADIOTAP, E_DOT11, E_IP, E_IP6 };
@@ -31,7 +33,7 @@ static IP ip0() { IP ip("192.0.2.7", "198.51.100.9"); ip.ttl(61); ip.id(0x1234);
 static IPv6 ip60() { IPv6 ip("2001:db8::7", "2001:db8::9"); ip.hop_limit(60); return ip; }
 static Dot11Data data0() { Dot11Data d; d.addr1("00:01:02:03:04:05"); d.addr2("10:11:12:13:14:15"); d.addr3("20:21:22:23:24:25"); d.from_ds(1); d.seq_num(77); return d; }
 
-static const int CATALOGUE_SIZE = 52;
+static const int CATALOGUE_SIZE = 55;
 static PDU* catalogue(int id, vh::Rng& rng, Entry& e) {
     e = E_ETH;
     switch (id) {
@@ -90,7 +92,29 @@ static PDU* catalogue(int id, vh::Rng& rng, Entry& e) {
     case 49: { IP ip = ip0(); ip.fragment_offset(3); return (eth0() / ip / raw(rng, 8)).clone(); }                          // last fragment, short frame
     case 50: { IP ip = ip0(); ip.fragment_offset(185); ip.flags(IP::MORE_FRAGMENTS); return (eth0() / Dot1Q(7) / ip / raw(rng, 9)).clone(); }
     case 51: { IPv6 ip = ip60(); uint8_t fr[6] = {0, 8, 0, 0, 0, 9}; ip.add_header(IPv6::ext_header(44, fr, fr + 6)); return (eth0() / ip / raw(rng, 8)).clone(); }   // IPv6 fragment header
+    // RTP whose body is padding only / padding behind a payload and an extension header; ICMPv6 Parameter Problem with a long quote
+    case 52: { RTP r; r.payload_type(96); r.sequence_number(1); r.timestamp(2); r.ssrc_id(0xdeadbeef); r.padding_size((uint8_t)rng.range(1, 9)); return (eth0() / ip0() / UDP(5004, 5004) / r).clone(); }
+    case 53: { RTP r; r.payload_type(97); r.sequence_number(3); r.ssrc_id(5); r.extension_profile(0xbede); r.add_extension_data(0x01020304); r.padding_size((uint8_t)rng.range(1, 9)); return (eth0() / ip0() / UDP(5004, 5004) / r / raw(rng, 12)).clone(); }
+    case 54: { ICMPv6 ic(ICMPv6::PARAM_PROBLEM); ic.code(1); ic.identifier(0); ic.sequence(0x28);      // octets 4..7 = the Pointer
+               IPv6 q = ip60() / UDP(1, 2) / raw(rng, 8 * rng.range(12, 20)); std::vector<uint8_t> quoted = q.serialize(); return (eth0() / ip60() / ic / RawPDU(quoted.begin(), quoted.end())).clone(); }
     }
     return 0;
 }
+// the (buffer, size) constructor of the class with the given type flag
+static PDU* construct(PDU::PDUType t, const uint8_t* p, uint32_t n) {
+    switch (t) {
+#define CT(FLAG, CLS) case PDU::FLAG: return new CLS(p, n);
+    CT(ETHERNET_II, EthernetII) CT(IEEE802_3, Dot3) CT(IP, IP) CT(IPv6, IPv6) CT(ARP, ARP) CT(TCP, TCP) CT(UDP, UDP) CT(ICMP, ICMP) CT(ICMPv6, ICMPv6)
+    CT(DNS, DNS) CT(DHCP, DHCP) CT(BOOTP, BootP) CT(DHCPv6, DHCPv6) CT(RTP, RTP) CT(VXLAN, VXLAN) CT(SNAP, SNAP) CT(LLC, LLC) CT(STP, STP) CT(SLL, SLL)
+    CT(LOOPBACK, Loopback) CT(MPLS, MPLS) CT(DOT1Q, Dot1Q) CT(DOT1AD, Dot1Q) CT(IPSEC_AH, IPSecAH) CT(IPSEC_ESP, IPSecESP) CT(RSNEAPOL, RSNEAPOL) CT(RC4EAPOL, RC4EAPOL)
+    CT(PPPOE, PPPoE) CT(RADIOTAP, RadioTap) CT(PPI, PPI) CT(PKTAP, PKTAP) CT(RAW, RawPDU)
+    CT(DOT11, Dot11) CT(DOT11_DATA, Dot11Data) CT(DOT11_QOS_DATA, Dot11QoSData) CT(DOT11_BEACON, Dot11Beacon) CT(DOT11_PROBE_REQ, Dot11ProbeRequest) CT(DOT11_PROBE_RESP, Dot11ProbeResponse)
+    CT(DOT11_ASSOC_REQ, Dot11AssocRequest) CT(DOT11_ASSOC_RESP, Dot11AssocResponse) CT(DOT11_REASSOC_REQ, Dot11ReAssocRequest) CT(DOT11_REASSOC_RESP, Dot11ReAssocResponse)
+    CT(DOT11_AUTH, Dot11Authentication) CT(DOT11_DEAUTH, Dot11Deauthentication) CT(DOT11_DIASSOC, Dot11Disassoc) CT(DOT11_RTS, Dot11RTS) CT(DOT11_PS_POLL, Dot11PSPoll)
+    CT(DOT11_CF_END, Dot11CFEnd) CT(DOT11_END_CF_ACK, Dot11EndCFAck) CT(DOT11_ACK, Dot11Ack) CT(DOT11_BLOCK_ACK_REQ, Dot11BlockAckRequest) CT(DOT11_BLOCK_ACK, Dot11BlockAck)
+#undef CT
+    default: return 0;
+    }
+}
+
 #endif
